@@ -721,6 +721,99 @@ func runC12(c *Ctx) {
 				c.check(reported, fn, "errno reported", fn.Pos(), "the error returned carries the errno of the call", spec.fn+" does not hand the errno of its setsockopt call to the caller: a membership the kernel refused is reported as made, the peer waits for traffic that is never delivered (or keeps receiving what it believes it left)")
 			}
 		}
+		// the constructor reports the address the kernel gave the socket: IP and Port of the local address come from
+		// getsockname on every address family it accepts
+		{
+			ctor := p.Fn("multicast", "NewUDPPeer")
+			var gsn ssa.Value
+			eachInstr(ctor, func(in ssa.Instruction) {
+				if call, ok := in.(*ssa.Call); ok && call.Call.StaticCallee() != nil && call.Call.StaticCallee().String() == "syscall.Getsockname" {
+					gsn = call
+				}
+			})
+			for _, g := range withClosures(ctor) {
+				_ = g
+			}
+			// helpers a refactoring split off (localUDPAddr(sockAddr)) are searched with the sockaddr they receive
+			cnt := map[string]int{}
+			families := 0
+			eachInstrDeep(ctor, func(in, _ ssa.Instruction, tr func(ssa.Value) ssa.Value) {
+				if ta, ok := in.(*ssa.TypeAssert); ok && ta.CommaOk {
+					if pt, ok := ta.AssertedType.(*types.Pointer); ok {
+						if n, ok := pt.Elem().(*types.Named); ok && strings.HasPrefix(n.Obj().Name(), "SockaddrInet") {
+							families++
+						}
+					}
+				}
+				st, ok := in.(*ssa.Store)
+				if !ok {
+					return
+				}
+				fv, _ := fieldAddrOf(st.Addr)
+				if fv == nil || fv.Pkg() == nil || fv.Pkg().Path() != "net" {
+					return
+				}
+				if fv.Name() == "IP" || fv.Name() == "Port" {
+					cnt[fv.Name()]++
+				}
+			})
+			okAddr := gsn != nil && families > 0 && cnt["IP"] >= families && cnt["Port"] >= families
+			c.check(okAddr, ctor, "local address", ctor.Pos(), "IP and Port of the reported local address are set for every address family", fmt.Sprintf("NewUDPPeer does not fill IP and Port of the local address from getsockname for every address family it accepts (families=%d, IP stores=%d, Port stores=%d): LocalAddr() reports an address the socket is not bound to", families, cnt["IP"], cnt["Port"]))
+		}
+		// an interface the caller named reaches the kernel: JoinSourceOn resolves it and hands it on; the request of a join
+		// on an interface names one of its addresses; the outbound interface is set to an address of the interface given
+		{
+			jo := p.Method("multicast", "UDPPeer", "JoinSourceOn")
+			var ifName *ssa.Parameter
+			for _, q := range jo.Params {
+				if pinParamName(q) == "interfaceName" {
+					ifName = q
+				}
+			}
+			helper := p.Method("multicast", "UDPPeer", "joinIPv4")
+			okIf := false
+			for _, dc := range deepCallsTo(jo, helper) {
+				for i, q := range helper.Params {
+					if pinParamName(q) == "iff" && ifName != nil && i < len(dc.Call.Call.Args) && dependsOnLoose(dc.translate(dc.Call.Call.Args[i]), ifName) {
+						okIf = true
+					}
+				}
+			}
+			c.check(okIf, jo, "interface reaches joinIPv4", jo.Pos(), "the interface named by the caller is resolved and handed on", "JoinSourceOn does not hand the interface it was given (resolved) to joinIPv4: the group is joined on the kernel's default interface and traffic arriving on the interface asked for is not delivered")
+			for _, spec := range []struct{ fn, field string }{{"prepareAddMembership", "Interface"}, {"SetMulticastInterface", ""}} {
+				fn := p.TryFn(ipv4, spec.fn)
+				if fn == nil {
+					continue
+				}
+				var iff *ssa.Parameter
+				for _, q := range fn.Params {
+					if pinParamName(q) == "iff" {
+						iff = q
+					}
+				}
+				filled := false
+				eachInstr(fn, func(in ssa.Instruction) {
+					call, ok := in.(*ssa.Call)
+					if !ok || iff == nil {
+						return
+					}
+					b, isB := call.Call.Value.(*ssa.Builtin)
+					if !isB || b.Name() != "copy" || !dependsOnLoose(call.Call.Args[1], iff) {
+						return
+					}
+					dst := strip(call.Call.Args[0])
+					if sl, ok := dst.(*ssa.Slice); ok {
+						dst = sl.X
+					}
+					if spec.field == "" {
+						filled = true
+					} else if fv, _ := fieldAddrOf(dst); fv != nil && fv.Name() == spec.field {
+						filled = true
+					}
+				})
+				c.check(filled, fn, "interface address", fn.Pos(), "an address of the interface given is copied into the request", spec.fn+" does not copy an address of the interface it was given into what it hands the kernel: the kernel uses its default interface although the caller named one")
+			}
+		}
 		// the plain membership requests name the group they were given
 		for _, name := range []string{"prepareAddMembership", "prepareDropMembership"} {
 			fn := p.TryFn(ipv4, name)
